@@ -150,6 +150,48 @@ fn create_component_ref_name(
     create_component_ref_gid(gid, transform)
 }
 
+/// glyf stores coordinates, component offsets, and the differences between the
+/// successive coordinates of an outline as i16; fail rather than let the
+/// conversion clamp the value (or the subtraction wrap).
+fn check_fits_i16(glyph_name: &GlyphName, what: &str, value: f64) -> Result<(), Error> {
+    let rounded: f64 = value.ot_round();
+    if (i16::MIN as f64..=i16::MAX as f64).contains(&rounded) {
+        return Ok(());
+    }
+    Err(Error::OutOfBounds {
+        what: format!("{what} of '{glyph_name}'"),
+        value: format!("{value}"),
+    })
+}
+
+fn check_path_fits_i16(glyph_name: &GlyphName, path: &BezPath) -> Result<(), Error> {
+    for el in path.elements() {
+        let points = match *el {
+            PathEl::MoveTo(p) | PathEl::LineTo(p) => [Some(p), None, None],
+            PathEl::QuadTo(p1, p) => [Some(p1), Some(p), None],
+            PathEl::CurveTo(p1, p2, p) => [Some(p1), Some(p2), Some(p)],
+            PathEl::ClosePath => [None, None, None],
+        };
+        for p in points.into_iter().flatten() {
+            check_fits_i16(glyph_name, "x coordinate", p.x)?;
+            check_fits_i16(glyph_name, "y coordinate", p.y)?;
+        }
+    }
+    Ok(())
+}
+
+/// Points are written as the difference to the previous point (the first one to 0,0)
+fn check_point_deltas_fit_i16(glyph_name: &GlyphName, glyph: &SimpleGlyph) -> Result<(), Error> {
+    let (mut last_x, mut last_y) = (0_i32, 0_i32);
+    for point in glyph.contours.iter().flat_map(|c| c.iter()) {
+        let (x, y) = (point.x as i32, point.y as i32);
+        check_fits_i16(glyph_name, "x coordinate delta", (x - last_x) as f64)?;
+        check_fits_i16(glyph_name, "y coordinate delta", (y - last_y) as f64)?;
+        (last_x, last_y) = (x, y);
+    }
+    Ok(())
+}
+
 fn create_composite(
     context: &Context,
     glyph: &ir::Glyph,
@@ -165,6 +207,14 @@ fn create_composite(
             GlyphProblem::MissingDefault,
         ));
     };
+    for (_, _, transform) in components
+        .iter()
+        .filter(|(_, loc, _)| loc == default_location)
+    {
+        let [.., dx, dy] = transform.as_coeffs();
+        check_fits_i16(&glyph.name, "component x offset", dx)?;
+        check_fits_i16(&glyph.name, "component y offset", dy)?;
+    }
     let components_at_default = components
         .iter()
         .filter_map(|(ref_glyph_name, loc, transform)| {
@@ -409,6 +459,9 @@ impl Work<Context, AnyWorkId, Error> for GlyphWork {
             CheckedGlyph::Contour { name, paths } => {
                 // Convert paths to SimpleGlyphs in parallel so we can get consistent point streams
                 let (locations, bezpaths): (Vec<_>, Vec<_>) = paths.into_iter().unzip();
+                for path in &bezpaths {
+                    check_path_fits_i16(&self.glyph_name, path)?;
+                }
                 let simple_glyphs = SimpleGlyph::interpolatable_glyphs_from_bezpaths(&bezpaths)
                     .map_err(|e| Error::KurboError {
                         glyph_name: self.glyph_name.clone(),
@@ -431,6 +484,7 @@ impl Work<Context, AnyWorkId, Error> for GlyphWork {
                         GlyphProblem::MissingDefault,
                     ));
                 };
+                check_point_deltas_fit_i16(&self.glyph_name, base_glyph)?;
                 context
                     .glyphs
                     .set_unconditionally(Glyph::new(name.clone(), base_glyph.clone()));
@@ -972,6 +1026,35 @@ mod tests {
         let (glyph, mut component) = create_reusable_component();
         component.width += 1.0;
         assert!(!can_reuse_metrics(&glyph, &component, &Affine::IDENTITY));
+    }
+
+    #[test]
+    fn coordinates_and_deltas_that_do_not_fit_i16_are_errors() {
+        let name = GlyphName::new("a");
+        let rect = |x0: f64, x1: f64| {
+            let mut path = BezPath::new();
+            path.move_to((x0, 0.0));
+            path.line_to((x1, 0.0));
+            path.line_to((x1, 100.0));
+            path.line_to((x0, 100.0));
+            path.close_path();
+            path
+        };
+        assert!(check_path_fits_i16(&name, &rect(-32768.0, 32767.25)).is_ok());
+        assert!(matches!(
+            check_path_fits_i16(&name, &rect(0.0, 32767.5)),
+            Err(Error::OutOfBounds { .. })
+        ));
+        assert!(check_path_fits_i16(&name, &rect(-32769.0, 0.0)).is_err());
+
+        // each coordinate fits, the step from one to the next does not
+        let far_apart = SimpleGlyph::from_bezpath(&rect(-20000.0, 20000.0)).unwrap();
+        assert!(matches!(
+            check_point_deltas_fit_i16(&name, &far_apart),
+            Err(Error::OutOfBounds { .. })
+        ));
+        let close = SimpleGlyph::from_bezpath(&rect(-16383.0, 16384.0)).unwrap();
+        assert!(check_point_deltas_fit_i16(&name, &close).is_ok());
     }
 
     #[test]
